@@ -10,6 +10,7 @@ Equivariance of the remaining algorithms of the property is evaluated on the imp
 -/
 import SkNet.Lemmas.WLEquiv
 import SkNet.Properties.C10
+import SkNet.Lemmas.EmbeddingEquiv
 
 namespace SkNet.C02
 open SkNet SkNet.WL
@@ -273,5 +274,173 @@ theorem dist_equivariant {n : Nat} {π πinv : Nat → Nat} (hp : IsPerm n π π
     apply ((C10.exact_entry hd' (hp.lt v hv)).1).2
     intro d hwd
     exact hun d ((hw d v hv).1 hwd)
+
+/-- exact distances are equivariant, stated on the specification: `d` is the hop distance of `π v` in the
+renumbered graph iff it is the hop distance of `v` in the original. -/
+theorem isDist_equivariant {n : Nat} {π πinv : Nat → Nat} (hp : IsPerm n π πinv)
+    (edge edge' : Nat → Nat → Bool) (src src' : Nat → Bool)
+    (he : ∀ i j, i < n → j < n → edge' (π i) (π j) = edge i j)
+    (hs : ∀ i, i < n → src' (π i) = src i) (v : Nat) (hv : v < n) (d : Nat) :
+    Path.IsDist n edge' src' (π v) d ↔ Path.IsDist n edge src v d := by
+  have hw := walk_equivariant hp edge edge' src src' he hs
+  unfold Path.IsDist
+  rw [hw d v hv]
+  constructor
+  · rintro ⟨h1, h2⟩; exact ⟨h1, fun d' hd' h => h2 d' hd' ((hw d' v hv).2 h)⟩
+  · rintro ⟨h1, h2⟩; exact ⟨h1, fun d' hd' h => h2 d' hd' ((hw d' v hv).1 h)⟩
+
+/-- **shortestPathDag_equivariant**. The shortest-path DAG (`get_shortest_path`: `get_dag` applied to the
+exact distance vector, C10's model) of a renumbered graph with renumbered sources is the renumbered DAG:
+`(π i, π j)` is an edge of the one iff `(i, j)` is an edge of the other — for every graph, every source set
+and every permutation. (With `C10.shortestPathDag_exact` and `C10.bfs_exact`.) -/
+theorem shortestPathDag_equivariant {n : Nat} {π πinv : Nat → Nat} (hp : IsPerm n π πinv)
+    (edge edge' : Nat → Nat → Bool) (src src' : Nat → Bool)
+    (he : ∀ i j, i < n → j < n → edge' (π i) (π j) = edge i j)
+    (hs : ∀ i, i < n → src' (π i) = src i)
+    (dist dist' : List Int) (hd : Path.Exact n edge src dist) (hd' : Path.Exact n edge' src' dist')
+    (i j : Nat) (hi : i < n) (hj : j < n) :
+    (π i, π j) ∈ Path.pairsOf (Path.getDagEntries (Path.entriesOf n edge') dist') ↔
+      (i, j) ∈ Path.pairsOf (Path.getDagEntries (Path.entriesOf n edge) dist) := by
+  rw [C10.shortestPathDag_exact n edge' src' dist' hd', C10.shortestPathDag_exact n edge src dist hd]
+  have e1 := isDist_equivariant hp edge edge' src src' he hs i hi
+  have e2 := isDist_equivariant hp edge edge' src src' he hs j hj
+  constructor
+  · rintro ⟨_, _, hed, d, h1, h2⟩
+    exact ⟨hi, hj, by rw [← he i j hi hj]; exact hed, d, (e1 d).1 h1, (e2 (d+1)).1 h2⟩
+  · rintro ⟨_, _, hed, d, h1, h2⟩
+    exact ⟨hp.lt i hi, hp.lt j hj, by rw [he i j hi hj]; exact hed, d, (e1 d).2 h1, (e2 (d+1)).2 h2⟩
+
+/-- the renumbered DAG has no other edges: every edge of the DAG of the renumbered graph is the image of an
+edge of the DAG of the original (so the two DAGs have equally many edges, renumbered one to one). -/
+theorem shortestPathDag_equivariant_onto {n : Nat} {π πinv : Nat → Nat} (hp : IsPerm n π πinv)
+    (edge edge' : Nat → Nat → Bool) (src src' : Nat → Bool)
+    (he : ∀ i j, i < n → j < n → edge' (π i) (π j) = edge i j)
+    (hs : ∀ i, i < n → src' (π i) = src i)
+    (dist dist' : List Int) (hd : Path.Exact n edge src dist) (hd' : Path.Exact n edge' src' dist')
+    (a b : Nat) (hab : (a, b) ∈ Path.pairsOf (Path.getDagEntries (Path.entriesOf n edge') dist')) :
+    ∃ i j, i < n ∧ j < n ∧ a = π i ∧ b = π j ∧
+      (i, j) ∈ Path.pairsOf (Path.getDagEntries (Path.entriesOf n edge) dist) := by
+  have hab' := hab
+  rw [C10.shortestPathDag_exact n edge' src' dist' hd'] at hab'
+  obtain ⟨ha, hb, _⟩ := hab'
+  refine ⟨πinv a, πinv b, hp.lt_inv a ha, hp.lt_inv b hb, (hp.right a ha).symm, (hp.right b hb).symm, ?_⟩
+  rw [← shortestPathDag_equivariant hp edge edge' src src' he hs dist dist' hd hd' _ _
+    (hp.lt_inv a ha) (hp.lt_inv b hb), hp.right a ha, hp.right b hb]
+  exact hab
+
+/-- Non-vacuity: the path 0 → 1 → 2 with source 0 and its copy renumbered by the rotation `u ↦ u+1 mod 3`. -/
+example : Path.pairsOf (Path.getDagEntries (Path.entriesOf 3 fun i j => i + 1 == j) [0, 1, 2]) = [(0, 1), (1, 2)] ∧
+    Path.pairsOf (Path.getDagEntries (Path.entriesOf 3 fun i j => (i + 2) % 3 + 1 == (j + 2) % 3) [2, 0, 1])
+      = [(1, 2), (2, 0)] := by decide
+
+/-! ## spectra and singular values (operators of C09's specification)
+
+`Spec.lapApply n a reg` is the regularised Laplacian `D − A_reg` that `Spectral(decomposition='laplacian')`
+hands to ARPACK, `Spec.transApply` the transition operator `D⁻¹ A_reg` whose eigenvalues `Spectral`
+reports for `decomposition='rw'`, `Spec.gsvdEntry` the matrix `D₁^{-α₁} A_reg D₂^{-α₂}` of GSVD / SVD (C09
+ties them to the code). Over any field: a renumbering maps eigenpairs to eigenpairs with the same eigenvalue
+and singular triplets to singular triplets with the same singular value, in both directions — the spectrum and
+the singular values are unchanged, the vectors are renumbered. -/
+
+section spectra
+open SkNet.Embedding SkNet.Embedding.Spec SkNet.EmbeddingEquiv
+variable {α : Type} [Field α] [DecidableEq α]
+
+/-- an eigenpair on `{0..n-1}` of an operator given by its action -/
+def IsEigenpair (n : Nat) (op : (Nat → α) → Nat → α) (lam : α) (v : Nat → α) : Prop :=
+  ∀ i, i < n → op v i = lam * v i
+
+/-- `lam` is an eigenvalue: some vector that is not null on `{0..n-1}` is an eigenvector for it -/
+def IsEigenvalue (n : Nat) (op : (Nat → α) → Nat → α) (lam : α) : Prop :=
+  ∃ v, (∃ i, i < n ∧ v i ≠ 0) ∧ IsEigenpair n op lam v
+
+omit [DecidableEq α] in
+theorem eigenpair_relabel {n : Nat} {π πinv : Nat → Nat} (hp : IsPerm n π πinv)
+    (op op' : (Nat → α) → Nat → α) {v v' : Nat → α}
+    (hop : ∀ i, i < n → op' v' (π i) = op v i) (hv : ∀ i, i < n → v' (π i) = v i) (lam : α) :
+    IsEigenpair n op' lam v' ↔ IsEigenpair n op lam v := by
+  constructor
+  · intro h i hi
+    have := h (π i) (hp.lt i hi)
+    rwa [hop i hi, hv i hi] at this
+  · intro h i' hi'
+    have e : i' = π (πinv i') := (hp.right i' hi').symm
+    rw [e, hop _ (hp.lt_inv i' hi'), hv _ (hp.lt_inv i' hi')]
+    exact h _ (hp.lt_inv i' hi')
+
+/-- **laplacian_eigenpair_relabel**. `(λ, v)` is an eigenpair of the regularised Laplacian of `G` iff
+`(λ, v renumbered)` is one of the renumbered graph — every graph, regularisation, permutation. -/
+theorem laplacian_eigenpair_relabel {n : Nat} {π πinv : Nat → Nat} (hp : IsPerm n π πinv) {a a' : Mat α}
+    (h : Renumbered n n π π a a') (reg lam : α) {v v' : Nat → α} (hv : ∀ i, i < n → v' (π i) = v i) :
+    IsEigenpair n (lapApply n a' reg) lam v' ↔ IsEigenpair n (lapApply n a reg) lam v :=
+  eigenpair_relabel hp _ _ (fun _ hi => lapApply_relabel hp h reg hv hi) hv lam
+
+/-- the same for the transition operator `D⁻¹ A_reg` (`decomposition='rw'`) -/
+theorem transition_eigenpair_relabel {n : Nat} {π πinv : Nat → Nat} (hp : IsPerm n π πinv) {a a' : Mat α}
+    (h : Renumbered n n π π a a') (reg lam : α) {v v' : Nat → α} (hv : ∀ i, i < n → v' (π i) = v i) :
+    IsEigenpair n (transApply n a' reg) lam v' ↔ IsEigenpair n (transApply n a reg) lam v :=
+  eigenpair_relabel hp _ _ (fun _ hi => transApply_relabel hp h reg hv hi) hv lam
+
+/-- **spectrum_relabel_invariant**. The renumbered graph has exactly the eigenvalues of the original, for
+the Laplacian and for the transition operator. -/
+theorem spectrum_relabel_invariant {n : Nat} {π πinv : Nat → Nat} (hp : IsPerm n π πinv) {a a' : Mat α}
+    (h : Renumbered n n π π a a') (reg lam : α) :
+    (IsEigenvalue n (lapApply n a' reg) lam ↔ IsEigenvalue n (lapApply n a reg) lam) ∧
+    (IsEigenvalue n (transApply n a' reg) lam ↔ IsEigenvalue n (transApply n a reg) lam) := by
+  have key : ∀ (op op' : (Nat → α) → Nat → α),
+      (∀ v v' : Nat → α, (∀ i, i < n → v' (π i) = v i) → ∀ i, i < n → op' v' (π i) = op v i) →
+      (IsEigenvalue n op' lam ↔ IsEigenvalue n op lam) := by
+    intro op op' hop
+    constructor
+    · rintro ⟨v', ⟨i', hi', hne⟩, hev⟩
+      refine ⟨fun i => v' (π i), ⟨πinv i', hp.lt_inv i' hi', by simpa [hp.right i' hi'] using hne⟩, ?_⟩
+      exact (eigenpair_relabel hp op op' (hop _ v' fun _ _ => rfl) (fun _ _ => rfl) lam).1 hev
+    · rintro ⟨v, ⟨i, hi, hne⟩, hev⟩
+      have hv : ∀ k, k < n → (fun k => v (πinv k)) (π k) = v k := fun k hk => by simp [hp.left k hk]
+      refine ⟨fun k => v (πinv k), ⟨π i, hp.lt i hi, by simpa [hp.left i hi] using hne⟩, ?_⟩
+      exact (eigenpair_relabel hp op op' (hop v _ hv) hv lam).2 hev
+  exact ⟨key _ _ fun v v' hv i hi => lapApply_relabel hp h reg hv hi,
+         key _ _ fun v v' hv i hi => transApply_relabel hp h reg hv hi⟩
+
+/-- **singular_triplet_relabel**. With independent renumberings `π` of the rows and `ρ` of the columns,
+`(σ, u, v)` is a singular triplet of the GSVD matrix of `B` iff `(σ, u renumbered by π, v renumbered by ρ)` is
+one of the renumbered matrix: the singular values are unchanged. (`fr = fc = 0` with `F.pow x 0 = 1` is
+the plain SVD.) -/
+theorem singular_triplet_relabel (F : Fn α) {nRow nCol : Nat} {π πinv ρ ρinv : Nat → Nat}
+    (hr : IsPerm nRow π πinv) (hc : IsPerm nCol ρ ρinv) {a a' : Mat α} (h : Renumbered nRow nCol π ρ a a')
+    (reg fr fc s : α) {u u' v v' : Nat → α}
+    (hu : ∀ i, i < nRow → u' (π i) = u i) (hv : ∀ j, j < nCol → v' (ρ j) = v j) :
+    IsTriplet nRow nCol (gsvdEntry F nRow nCol a' reg fr fc) s u' v' ↔
+      IsTriplet nRow nCol (gsvdEntry F nRow nCol a reg fr fc) s u v := by
+  constructor
+  · intro ht
+    refine isTriplet_relabel_mp (isPerm_symm hr) (isPerm_symm hc) ?_ s ?_ ?_ ht
+    · intro i' j' hi' hj'
+      have := gsvdEntry_relabel F hr hc h reg fr fc (hr.lt_inv i' hi') (hc.lt_inv j' hj')
+      rw [hr.right i' hi', hc.right j' hj'] at this
+      exact this.symm
+    · intro i' hi'; rw [← hu _ (hr.lt_inv i' hi'), hr.right i' hi']
+    · intro j' hj'; rw [← hv _ (hc.lt_inv j' hj'), hc.right j' hj']
+  · exact isTriplet_relabel_mp hr hc (fun i j hi hj => gsvdEntry_relabel F hr hc h reg fr fc hi hj) s hu hv
+
+/-- Non-vacuity: the path 0 – 1 – 2 over ℚ, `reg = 0`; `(1, [1, 0, -1])` is an eigenpair of its Laplacian,
+and of the copy renumbered by the rotation `u ↦ u+1 mod 3` with the rotated vector. -/
+example :
+    Renumbered (α := Rat) 3 3 (fun u => (u + 1) % 3) (fun u => (u + 1) % 3)
+      [[0, 1, 0], [1, 0, 1], [0, 1, 0]] [[0, 0, 1], [0, 0, 1], [1, 1, 0]] ∧
+    IsEigenpair (α := Rat) 3 (lapApply 3 [[0, 1, 0], [1, 0, 1], [0, 1, 0]] 0) 1 (fun i => [1, 0, -1].getD i 0) ∧
+    IsEigenpair (α := Rat) 3 (lapApply 3 [[0, 0, 1], [0, 0, 1], [1, 1, 0]] 0) 1 (fun i => [-1, 1, 0].getD i 0) := by
+  refine ⟨?_, ?_, ?_⟩
+  · intro i j hi hj
+    have : i = 0 ∨ i = 1 ∨ i = 2 := by omega
+    have : j = 0 ∨ j = 1 ∨ j = 2 := by omega
+    rcases ‹i = 0 ∨ i = 1 ∨ i = 2› with rfl | rfl | rfl <;> rcases ‹j = 0 ∨ j = 1 ∨ j = 2› with rfl | rfl | rfl <;>
+      decide +kernel
+  all_goals
+    intro i hi
+    have : i = 0 ∨ i = 1 ∨ i = 2 := by omega
+    rcases this with rfl | rfl | rfl <;> decide +kernel
+
+end spectra
 
 end SkNet.C02
